@@ -61,7 +61,7 @@ Open(tok, r) == IF r # <<>> /\ Head(r) \in {"(", "(("} THEN <<tok, " ">> ELSE <<
 ------------------------------------------------------------------------
 \* Arithmetic expressions
 BinA(op, a, b) == [k |-> "BinaryArithm", Op |-> op, X |-> a, Y |-> b]
-NArith == 12
+NArith == 13
 RECURSIVE DArith(_, _)
 DArith(p, d) ==
   LET c == IF d = 0 THEN Ch(p) % 3 ELSE Ch(p)
@@ -88,6 +88,9 @@ DArith(p, d) ==
     [] c = 10 -> LET a == DArith(p + 1, d - 1) IN
          Res(a.pos, Need2(nd, a.need), L1(LAMBDA u : BinA("=", LW("i"), u), a),
              <<"i", "=">> \o a.r, a.v, a.x)
+    [] c = 12 ->   \* i - -1 : a binary minus followed by a unary minus must not be glued into --
+         Res(p + 1, nd, Tri(BinA("-", LW("i"), [k |-> "UnaryArithm", Op |-> "-", X |-> LW("1")])),
+             <<"i", " ", "-", " ", "-", "1">>, All, None)
     [] c = 11 -> LET a == DArith(p + 1, d - 1) IN   \* ternary: ? with a nested : node
          Res(a.pos, Need2(nd, a.need),
              L1(LAMBDA u : BinA("?", u, BinA(":", LW("1"), LW("2"))), a),
@@ -99,7 +102,7 @@ RECURSIVE DWord(_, _), DStmts(_, _, _), DStmt(_, _), DCmd(_, _)
 
 PE(name) == [k |-> "ParamExp", Param |-> Lit(name)]
 PEShort(name) == PE(name) @@ ("Short" :> TRUE)
-NWord == 30
+NWord == 32
 
 \* Parameter expansion operators with a word argument: <<spelling, valid langs, must-reject langs>>
 ExpOps == << <<":-", All, None>>, <<"-", All, None>>, <<":=", All, None>>, <<"=", All, None>>,
@@ -187,6 +190,13 @@ DWord(p, d) ==
     [] c = 28 -> Res(p + 1, nd, Tri(W(<<PE("x") @@ ("Exp" :> [k |-> "Expansion", Op |-> "@", Word |-> LW("Q")])>>)),
                      <<"${x@Q}">>, BashLike, {"posix"})
     [] c = 29 -> Res(p + 1, nd, Tri(W(<<PE("x") @@ ("Excl" :> TRUE) @@ ("Names" :> "*")>>)), <<"${!x*}">>, BashLike, {"posix"})
+    [] c = 30 ->  \* ${x}1 : a digit would extend the name too, so Minify must keep the braces
+         Res(p + 1, nd, Tri(W(<<PE("x"), Lit("1")>>)), <<"${x}", "1">>, All, None)
+    [] c = 31 ->  \* "`echo \"x\" y`" : backquotes inside double quotes, with escaped double quotes inside
+         LET inner(bq) == W(<<[k |-> "DblQuoted", Parts |-> <<CmdSubstNode(<<[k |-> "Stmt", Cmd |-> [k |-> "CallExpr", Args |->
+                              <<LW("echo"), W(<<[k |-> "DblQuoted", Parts |-> <<Lit("x")>>]>>), LW("y")>>]]>>, bq)>>]>>) IN
+         Res(p + 1, nd, [t |-> inner(TRUE), n |-> inner(FALSE), m |-> inner(FALSE)],
+             <<"\"`", "echo", " ", "\\\"x\\\"", " ", "y", "`\"">>, All, None)
 
 ------------------------------------------------------------------------
 \* Test expressions for [[ ]]
@@ -244,7 +254,7 @@ Redirs == <<
 CallOf(args) == [k |-> "CallExpr", Args |-> args]
 StmtOf(cmd)  == [k |-> "Stmt", Cmd |-> cmd]
 Assign(name, w) == [k |-> "Assign", Name |-> Lit(name), Value |-> w]
-NCmd == 34
+NCmd == 35
 
 \* Commands allowed without nesting budget: 0..5
 DCmd(p, d) ==
@@ -356,7 +366,7 @@ DCmd(p, d) ==
          Res(b.pos, Need2(nd, b.need),
              L1(LAMBDA z : [k |-> "ForClause", Select |-> TRUE, Loop |-> [k |-> "WordIter", Name |-> Lit("i"), Items |-> <<LW("w1")>>], Do |-> z], b),
              <<"select", "<SP>", "i", "<SP>", "in", "<SP>", "w1", "<SEP>", "do", "<SP>">> \o b.r \o <<"done">>,
-             b.v \cap NoPosix, b.x)
+             b.v \cap NoPosix, b.x \cap NoPosix)
     [] c = 21 ->   \* case W in p1|p2) S ;; *) S2 ;& esac  -- three item terminators
          LET w  == DWord(p + 1, d - 1)
              o  == Ch(w.pos) % 3
@@ -386,7 +396,7 @@ DCmd(p, d) ==
          LET s == DStmts(p + 1, d - 1, "brace") IN
          Res(s.pos, Need2(nd, s.need),
              L1(LAMBDA u : [k |-> "FuncDecl", RsrvWord |-> TRUE, Name |-> Lit("fn"), Body |-> StmtOf([k |-> "Block", Stmts |-> u])], s),
-             <<"function", "<SP>", "fn", "<SP>", "{", "<SP>">> \o s.r \o <<"}">>, s.v \cap NoPosix, s.x)
+             <<"function", "<SP>", "fn", "<SP>", "{", "<SP>">> \o s.r \o <<"}">>, s.v \cap NoPosix, s.x \cap NoPosix)
     [] c = 25 ->   \* f() ( S )  : a subshell body
          LET s == DStmts(p + 1, d - 1, "paren") IN
          Res(s.pos, Need2(nd, s.need),
@@ -395,11 +405,11 @@ DCmd(p, d) ==
     [] c = 26 ->   \* (( arith ))
          LET a == DArith(p + 1, d - 1) IN
          Res(a.pos, Need2(nd, a.need), L1(LAMBDA u : [k |-> "ArithmCmd", X |-> u], a),
-             <<"((">> \o a.r \o <<"))">>, a.v \cap NoPosix, a.x)
+             <<"((">> \o a.r \o <<"))">>, a.v \cap NoPosix, a.x \cap NoPosix)
     [] c = 27 ->   \* [[ test ]]
          LET a == DTest(p + 1, d - 1) IN
          Res(a.pos, Need2(nd, a.need), L1(LAMBDA u : [k |-> "TestClause", X |-> u], a),
-             <<"[[", "<SP>">> \o a.r \o <<"<SP>", "]]">>, a.v \cap NoPosix, a.x)
+             <<"[[", "<SP>">> \o a.r \o <<"<SP>", "]]">>, a.v \cap NoPosix, a.x \cap NoPosix)
     [] c = 28 ->   \* declare -r a=W b   (also local/export/readonly/typeset/nameref)
          LET o == Ch(p + 1) % 5
              w == DWord(p + 2, d - 1)
@@ -408,7 +418,7 @@ DCmd(p, d) ==
              L1(LAMBDA u : [k |-> "DeclClause", Variant |-> Lit(variant), Args |-> <<
                   [k |-> "Assign", Naked |-> TRUE, Value |-> LW("-r")], Assign("a", u),
                   [k |-> "Assign", Naked |-> TRUE, Name |-> Lit("b")] >>], w),
-             <<variant, "<SP>", "-r", "<SP>", "a=">> \o w.r \o <<"<SP>", "b">>, w.v \cap BashLike, w.x)
+             <<variant, "<SP>", "-r", "<SP>", "a=">> \o w.r \o <<"<SP>", "b">>, w.v \cap BashLike, w.x \cap BashLike)
     [] c = 29 ->   \* let i++ j=2
          Res(p + 1, nd, Tri([k |-> "LetClause", Exprs |-> <<[k |-> "UnaryArithm", Op |-> "++", Post |-> TRUE, X |-> LW("i")],
                                                            BinA("=", LW("j"), LW("2"))>>]),
@@ -418,7 +428,7 @@ DCmd(p, d) ==
              \* `time` applies to a pipeline: `time a && b` is (time a) && b, not generated here
              andor == a.t.Cmd.k = "BinaryCmd" /\ a.t.Cmd.Op \in {"&&", "||"} IN
          Res(a.pos, Need2(nd, a.need), L1(LAMBDA u : [k |-> "TimeClause", Stmt |-> u], a),
-             <<"time", "<SP>">> \o a.r, IF andor THEN {} ELSE a.v \cap NoPosix, IF andor THEN {} ELSE a.x)
+             <<"time", "<SP>">> \o a.r, IF andor THEN {} ELSE a.v \cap NoPosix, IF andor THEN {} ELSE a.x \cap NoPosix)
     [] c = 31 ->   \* a=(w1 [2]=w2) b+=w c[1]=w
          LET w == DWord(p + 1, d - 1) IN
          Res(w.pos, Need2(nd, w.need),
@@ -433,13 +443,15 @@ DCmd(p, d) ==
          LET w == DWord(p + 1, 0) IN
          Res(w.pos, Need2(nd, w.need),
              L1(LAMBDA u : [k |-> "CoprocClause", Stmt |-> StmtOf(CallOf(<<LW("cmd"), u>>))], w),
-             <<"coproc", "<SP>", "cmd", "<SP>">> \o w.r, w.v \cap BashLike, w.x)
+             <<"coproc", "<SP>", "cmd", "<SP>">> \o w.r, w.v \cap BashLike, w.x \cap BashLike)
+    [] c = 34 ->   \* { }  : an empty compound list is valid in mksh and zsh only
+         Res(p + 1, nd, Tri([k |-> "Block"]), <<"{", "<SP>", "}">>, {"mksh", "zsh"}, {"bash", "bats", "posix"})
     [] c = 33 ->   \* for i in W; { B; }  : deprecated brace form, Norm clears Braces
          LET b == DStmts(p + 1, d - 1, "brace")
              F(z, br) == [k |-> "ForClause", Loop |-> [k |-> "WordIter", Name |-> Lit("i"), Items |-> <<LW("w1")>>], Do |-> z] @@ Flag("Braces", br) IN
          Res(b.pos, Need2(nd, b.need), [t |-> F(b.t, TRUE), n |-> F(b.n, FALSE), m |-> F(b.m, FALSE)],
              <<"for", "<SP>", "i", "<SP>", "in", "<SP>", "w1", "<SEP>", "{", "<SP>">> \o b.r \o <<"}">>,
-             b.v \cap Ksh, b.x)
+             b.v \cap Ksh, b.x \cap Ksh)
 
 ------------------------------------------------------------------------
 \* Statements: a command plus a modifier (negation, one redirection, both).
@@ -539,5 +551,6 @@ Layouts == <<
   [name |-> "wide",     sep |-> " ;\n\n", sp |-> "  ",   bg |-> "\n\n", comment |-> FALSE, final |-> "\n\n"],
   [name |-> "tabs",     sep |-> "\n",    sp |-> "\t",    bg |-> " ",  comment |-> FALSE, final |-> "\n"],
   [name |-> "bsnl",     sep |-> "\n",    sp |-> " \\\n", bg |-> "\n", comment |-> FALSE, final |-> "\n"],
-  [name |-> "comments", sep |-> "\n",    sp |-> " ",     bg |-> "\n", comment |-> TRUE,  final |-> "\n"] >>
+  [name |-> "comments", sep |-> "\n",    sp |-> " ",     bg |-> "\n", comment |-> TRUE,  final |-> "\n"],
+  [name |-> "crlf",     sep |-> "\r\n",  sp |-> " ",     bg |-> "\r\n", comment |-> FALSE, final |-> "\r\n"] >>
 =========================================================================
